@@ -49,5 +49,182 @@ pub fn endpoint_decision(column: &[char], row: &[char], absolute_column: bool, a
     (new_column, new_row)
 }
 
+
+// ---- cycle_endpoint, whole function: only '$' markers and letter case change, for every endpoint text ----
+pub open spec fn up(c: char) -> char { if 'a' <= c <= 'z' { ((c as u8) - 32) as char } else { c } }
+pub open spec fn undollar(s: Seq<char>) -> Seq<char> { s.filter(|c: char| c != '$') }
+pub open spec fn norm(s: Seq<char>) -> Seq<char> { undollar(s).map_values(|c: char| up(c)) }
+pub assume_specification [<char>::is_ascii_alphabetic] (c: &char) -> (r: bool)
+    ensures r == (('a' <= *c <= 'z') || ('A' <= *c <= 'Z'));
+pub assume_specification [<char>::is_ascii_digit] (c: &char) -> (r: bool)
+    ensures r == ('0' <= *c <= '9');
+// slice::to_vec copies the elements (used here with T = char, whose Clone is a bit copy)
+pub assume_specification<T: Clone> [<[T]>::to_vec] (s: &[T]) -> (r: Vec<T>)
+    ensures r@ == s@;
+/// `result.extend(column.iter().map(|c| c.to_ascii_uppercase()))` (iterator adapter + closure): appends the upper-cased letters
+#[verifier::external_body]
+pub fn shim_extend_upper(result: &mut Vec<char>, column: &[char])
+    ensures final(result)@ =~= old(result)@ + column@.map_values(|c: char| up(c))
+{ result.extend(column.iter().map(|c| c.to_ascii_uppercase())); }
+
+pub open spec fn dollar(b: bool) -> Seq<char> { if b { seq!['$'] } else { Seq::<char>::empty() } }
+pub open spec fn is_alpha(c: char) -> bool { ('a' <= c <= 'z') || ('A' <= c <= 'Z') }
+pub open spec fn is_digit(c: char) -> bool { '0' <= c <= '9' }
+pub open spec fn upmap(s: Seq<char>) -> Seq<char> { s.map_values(|c: char| up(c)) }
+pub proof fn lemma_norm_add(a: Seq<char>, b: Seq<char>)
+    ensures norm(a + b) =~= norm(a) + norm(b)
+{
+    Seq::filter_distributes_over_add(a, b, |c: char| c != '$');
+}
+pub proof fn lemma_undollar_clean(s: Seq<char>)
+    requires forall|k: int| 0 <= k < s.len() ==> s[k] != '$'
+    ensures undollar(s) =~= s
+    decreases s.len()
+{
+    reveal(Seq::filter);
+    if s.len() > 0 { lemma_undollar_clean(s.drop_last()); assert(s =~= s.drop_last().push(s.last())); }
+}
+pub proof fn lemma_norm_dollar(b: bool)
+    ensures norm(dollar(b)) =~= Seq::<char>::empty()
+{
+    reveal(Seq::filter);
+    reveal_with_fuel(Seq::filter, 3);
+    if b { assert(seq!['$'].drop_last() =~= Seq::<char>::empty()); }
+}
+pub proof fn lemma_norm_letters(s: Seq<char>)
+    requires forall|k: int| 0 <= k < s.len() ==> is_alpha(#[trigger] s[k])
+    ensures norm(upmap(s)) =~= norm(s)
+{
+    lemma_undollar_clean(s);
+    assert forall|k: int| 0 <= k < upmap(s).len() implies upmap(s)[k] != '$' by { assert(is_alpha(s[k])); }
+    lemma_undollar_clean(upmap(s));
+    assert forall|k: int| 0 <= k < s.len() implies up(up(s[k])) == up(s[k]) by { assert(is_alpha(s[k])); }
+}
+
+//@fn base/src/expressions/lexer/util.rs cycle_endpoint
+//@spec
+    requires part@.len() + 4 <= usize::MAX   // a [char] slice holds at most isize::MAX / 4 elements (allocation limit; not provable in Verus)
+    ensures norm(r@) =~= norm(part@)      // C34: only '$' markers and letter case differ
+//@rewrite `-> Vec<char> {` => `-> (r: Vec<char>) {`
+//@rewrite `result.extend(column.iter().map(|c| c.to_ascii_uppercase()));` => `shim_extend_upper(&mut result, column);`
+//@loop 1
+        invariant column_start <= i <= n, n == part@.len(), forall|k: int| column_start <= k < i ==> is_alpha(#[trigger] part@[k])
+        decreases n - i
+//@loop 2
+        invariant row_start <= i <= n, n == part@.len(), forall|k: int| row_start <= k < i ==> is_digit(#[trigger] part@[k])
+        decreases n - i
+//@before `let mut result = Vec::with_capacity(n + 2);`
+    proof {
+        assert(part@ =~= dollar(absolute_column) + column@ + dollar(absolute_row) + row@);
+    }
+//@after `result.extend_from_slice(row);`
+    proof {
+        let p1 = dollar(absolute_column); let p2 = dollar(absolute_row); let q1 = dollar(new_column); let q2 = dollar(new_row);
+        assert(result@ =~= q1 + upmap(column@) + q2 + row@);
+        lemma_norm_add(p1 + column@ + p2, row@); lemma_norm_add(p1 + column@, p2); lemma_norm_add(p1, column@);
+        lemma_norm_add(q1 + upmap(column@) + q2, row@); lemma_norm_add(q1 + upmap(column@), q2); lemma_norm_add(q1, upmap(column@));
+        lemma_norm_dollar(absolute_column); lemma_norm_dollar(absolute_row); lemma_norm_dollar(new_column); lemma_norm_dollar(new_row);
+        lemma_norm_letters(column@);
+    }
+//@end
+
+// ---- cycle_token_text, whole function: a reference/range token with optional whitespace and sheet prefix ----
+/// `text.iter().skip(i).position(|&c| c == '!')` (iterator adapters + closure): offset of the first '!' at or after i
+#[verifier::external_body]
+pub fn shim_find_bang(text: &[char], i: usize) -> (r: Option<usize>)
+    requires i <= text@.len()
+    ensures r matches Some(b) ==> i + b < text@.len() && text@[i + b] == '!'
+{ text.iter().skip(i).position(|&c| c == '!') }
+pub proof fn lemma_norm_take_next(s: Seq<char>, i: int)
+    requires 0 <= i < s.len()
+    ensures norm(s.take(i + 1)) =~= norm(s.take(i)) + norm(seq![s[i]])
+{
+    assert(s.take(i + 1) =~= s.take(i) + seq![s[i]]);
+    lemma_norm_add(s.take(i), seq![s[i]]);
+}
+pub proof fn lemma_norm_take_range(s: Seq<char>, a: int, b: int)
+    requires 0 <= a <= b <= s.len()
+    ensures norm(s.take(b)) =~= norm(s.take(a)) + norm(s.subrange(a, b))
+{
+    assert(s.take(b) =~= s.take(a) + s.subrange(a, b));
+    lemma_norm_add(s.take(a), s.subrange(a, b));
+}
+/// one character copied verbatim from position i
+pub proof fn lemma_pushed(r0: Seq<char>, res: Seq<char>, s: Seq<char>, i: int)
+    requires 0 <= i < s.len(), res =~= r0.push(s[i]), norm(r0) =~= norm(s.take(i))
+    ensures norm(res) =~= norm(s.take(i + 1))
+{
+    assert(res =~= r0 + seq![s[i]]);
+    lemma_norm_add(r0, seq![s[i]]);
+    lemma_norm_take_next(s, i);
+}
+/// a stretch [a, b) replaced by something with the same norm (a verbatim copy, or a cycled endpoint)
+pub proof fn lemma_appended(r0: Seq<char>, e: Seq<char>, s: Seq<char>, a: int, b: int)
+    requires 0 <= a <= b <= s.len(), norm(r0) =~= norm(s.take(a)), norm(e) =~= norm(s.subrange(a, b))
+    ensures norm(r0 + e) =~= norm(s.take(b))
+{
+    lemma_norm_add(r0, e);
+    lemma_norm_take_range(s, a, b);
+}
+//@fn base/src/expressions/lexer/util.rs cycle_token_text
+//@attr
+#[verifier::loop_isolation(false)]
+#[verifier::allow_complex_invariants]
+//@spec
+    requires text@.len() + 8 <= usize::MAX
+    ensures norm(r@) =~= norm(text@)      // C34: only '$' markers and letter case differ, sheet prefix and whitespace included
+//@rewrite `-> Vec<char> {` => `-> (r: Vec<char>) {`
+//@rewrite* `text.iter().skip(i).position(|&c| c == '!')` => `shim_find_bang(text, i)`
+//@rewrite* `text.iter().position(|&c| c == '!')` => `shim_find_bang(text, 0)`
+//@rewrite `result.extend(cycle_endpoint(&text[part_start..i]));` => `let mut __e = cycle_endpoint(&text[part_start..i]); let ghost e0 = __e@; result.append(&mut __e);`
+//@loop 1
+        invariant 0 <= i <= n, n == text@.len(), norm(result@) =~= norm(text@.take(i as int))
+        decreases n - i
+//@loop 2
+            invariant 0 <= i <= n, n == text@.len(), norm(result@) =~= norm(text@.take(i as int))
+            decreases n - i
+//@loop 3
+        invariant 0 <= i <= n, n == text@.len(), norm(result@) =~= norm(text@.take(i as int))
+        ensures norm(result@) =~= norm(text@)
+        decreases n - i
+//@before#2 `break;`
+            proof { assert(text@.take(i as int) =~= text@); }
+//@loop 4
+            invariant part_start <= i <= n, n == text@.len(), norm(result@) =~= norm(text@.take(part_start as int))
+            decreases n - i
+//@before `result.push(text[i]);`
+        let ghost rp = result@;
+//@after `result.push(text[i]);`
+        proof { lemma_pushed(rp, result@, text@, i as int); }
+//@before#1 `result.push('\'');`
+        let ghost rp = result@;
+//@after#1 `result.push('\'');`
+        proof { lemma_pushed(rp, result@, text@, i as int); }
+//@before `result.push(c);`
+        let ghost rp = result@;
+//@after `result.push(c);`
+        proof { lemma_pushed(rp, result@, text@, i as int); }
+//@before#2 `result.push('\'');`
+        let ghost rp = result@;
+//@after#2 `result.push('\'');`
+        proof { lemma_pushed(rp, result@, text@, i as int); }
+//@before `result.push('!');`
+        let ghost rp = result@;
+//@after `result.push('!');`
+        proof { lemma_pushed(rp, result@, text@, i as int); }
+//@before `result.push(':');`
+        let ghost rp = result@;
+//@after `result.push(':');`
+        proof { lemma_pushed(rp, result@, text@, i as int); }
+//@before `result.extend_from_slice(&text[i..prefix_end]);`
+        let ghost r0 = result@;
+//@after `result.extend_from_slice(&text[i..prefix_end]);`
+        proof { lemma_appended(r0, text@.subrange(i as int, prefix_end as int), text@, i as int, prefix_end as int);
+                assert(result@ =~= r0 + text@.subrange(i as int, prefix_end as int)); }
+//@before `let mut __e = cycle_endpoint(`
+        let ghost r1 = result@;
+//@after `result.append(&mut __e);`
+        proof { lemma_appended(r1, e0, text@, part_start as int, i as int); assert(result@ =~= r1 + e0); }
+//@end
 } // verus!
 fn main() {}
